@@ -133,11 +133,18 @@ def emitStructField (a : Ast) (f : StructField) : G StructFieldDec :=
   if f.isOptional then .ok (.optional f.fieldName f.fieldValue.unwrapArray.asSafeString)
   else (decodeArray a f.fieldValue .useAlias).bind fun d => .ok (.plain f.fieldName d)
 
+/-- the type an enum label is cast to: the discriminant is decoded as the target of a typedef'd switch type
+    (`ast.types().typedef_target(var_type.as_str()).map(|t| &t.target).unwrap_or(&var_type)`) -/
+def switchCastType (a : Ast) (swTy : BasicType) : BasicType :=
+  match a.typedefTarget swTy.asStr with
+  | some td => td.target
+  | none => swTy
+
 /-- the matcher of a case label -/
 def matcherOf (a : Ast) (swTy : BasicType) (label : String) : Pat :=
   match a.getConst label with
   | some (.constValue v) => .lit (safeName v)
-  | some (.enumValue e v) => .guard e v swTy.asSafeString
+  | some (.enumValue e v) => .guard e v (switchCastType a swTy).asSafeString
   | none => .lit (safeName label)
 
 def emitCase (a : Ast) (swTy : BasicType) (c : UnionCase) : G (List Arm) :=
